@@ -236,6 +236,9 @@ func checkC12(ck *Check) {
 	if a.AwsBelongs != nil && a.AwsNodes != nil {
 		ck.belongsShape("C12.R9")
 	}
+	// R10 the other condition that ends RunOnce for every group — a configured group the provider
+	// does not know — cannot arise from a refresh
+	ck.registryOnlyGrows("C12.R10")
 }
 
 func (ck *Check) listerWiring(rule string) {
